@@ -246,8 +246,16 @@ def materialize(fx, d, fs, p):
         path = os.path.join(d, name)
         with open(path, "wb") as f:
             f.write(data)
-        os.utime(path, (mtime, mtime))
+        ns = int(round(mtime * 10)) * 10**8
+        os.utime(path, ns=(ns, ns))
 
+    if p.get("subsec"):
+        # document and offset table modified within the same whole second: the table 0.5 s before / 0.2 s after the document
+        if fs["doc"] != ABSENT:
+            put(DOC, fx.docs[fs["doc"]], T0 + 0.7)
+        if fs["off"] != ABSENT:
+            put(DOC + ".offset", fx.tables[fs["off"]].encode("ascii"), T0 + 0.9 if fs["newer"] else T0 + 0.2)
+        fs = dict(fs, doc=ABSENT, off=ABSENT)
     if fs["doc"] != ABSENT:
         put(DOC, fx.docs[fs["doc"]], T0)
     if fs["arch"] != ABSENT:
@@ -513,6 +521,9 @@ class _Body:
 
     def read(self, amt=None):
         if self.fail is not None and self.pos >= self.fail_after:
+            if isinstance(self.fail, Hang):
+                # the peer went silent and the caller set no read time-out: this read never returns
+                raise Hang()
             raise self.fail
         end = len(self.data) if amt is None else min(len(self.data), self.pos + amt)
         if self.fail is not None:
@@ -529,6 +540,19 @@ class _Body:
 
 
 OUTCOME_KINDS = ("body", "http", "proto", "refused")
+
+
+def _finite_read_timeout(t):
+    """Read time-out in effect for a request made with timeout=t (urllib3 1.26: a number, a urllib3.Timeout, or absent = the
+    pool's default = the socket default = none)."""
+    import urllib3
+
+    if isinstance(t, urllib3.Timeout):
+        for v in (t._read, t.total):  # pylint: disable=protected-access
+            if isinstance(v, (int, float)) and not isinstance(v, bool):
+                return True
+        return False
+    return isinstance(t, (int, float)) and not isinstance(t, bool)
 
 
 class FakePool:
@@ -564,7 +588,10 @@ class FakePool:
             if o["how"] == "drop":
                 body = _Body(genuine, ConnectionResetError(104, "scripted: connection reset by peer"), after)
             elif o["how"] == "timeout":
-                body = _Body(genuine, socket.timeout("scripted: timed out"), after)
+                # the peer goes silent after `after` bytes (no FIN, no RST): what happens next is up to the read time-out the
+                # caller asked for - a socket with a finite time-out raises socket.timeout in the read (urllib3 turns it into
+                # ReadTimeoutError), a socket without one blocks for good
+                body = _Body(genuine, socket.timeout("scripted: timed out") if _finite_read_timeout(kw.get("timeout")) else Hang(), after)
             else:  # clean EOF before Content-Length bytes were delivered
                 body = _Body(genuine[:after])
         else:
